@@ -5,7 +5,7 @@ GLOBALS["builtins:__dict__"] = ("Dict[Str,Any]", "the builtins namespace")
 GLOBALS["mako.runtime:UNDEFINED"] = ("Any", "the UNDEFINED singleton")
 
 CLASS("mako.template:Template",
-      fields={"reserved_names": "Set[Str]", "lookup": "Opt[Obj[TemplateLookup]]", "uri": "Str",
+      fields={"reserved_names": "Set[Str]", "lookup": "Opt[Obj[LookupAPI]]", "uri": "Str",
               "module": "Obj[Module]", "callable_": "Fun[render_callable]",
               "format_exceptions": "Any", "error_handler": "Opt[Fun[error_handler]]",
               "include_error_handler": "Opt[Fun[error_handler]]",
@@ -16,7 +16,8 @@ CLASS("mako.template:DefTemplate", bases=["Template"], fields={})
 CLASS("mako.template:Module", name="Module",
       fields={"_template_uri": "Str", "_modified_time": "Real", "__name__": "Str",
               "_magic_number": "Int", "_source_encoding": "Opt[Str]"})
-CLASS("mako.lookup:TemplateLookup", fields={})
+CLASS("mako.lookup:TemplateCollection", name="LookupAPI", fields={})
+CLASS("mako.lookup:TemplateLookup", bases=["LookupAPI"], fields={})
 
 C("mako.runtime:Context.__init__",
   params={"self": "Context", "buffer": "FastEncodingBuffer", "**data": "Dict[Str,Any]"},
